@@ -46,7 +46,7 @@ CLAIMED["C19"] = ("TLA+ Ownership (strong holders = program handles, container, 
   "All states over 3 objects / <=2 weak edges (thorough <=3) incl. cycles and self-loops / <=2 handles / container / one live result x every enabled action, each built from scratch.", "§4 C19")
 
 CLAIMED["C17"] = ("TLA+ Locks (every public call as a program of lock steps, poisoning, Linearize property layer) explored by TLC over every scenario x interleaving; the same scenarios executed with real threads on the real RwLocks under a deterministic scheduler on the lock-point hook (all grant sequences, real blocking probed, writer preference simulated); per scenario the real outcome set must equal the model's, every outcome is judged by TLC (Linearizable, panic, poison, deadlock); listed design defects reported as KNOWN-FINDING by scenario class",
-  "All scenarios of 2 threads x 1 call over 2 nodes and initial graphs with <=2 edges (thorough: 2x2 calls, 3 nodes, 3 threads), every interleaving of lock acquisitions: ~12 000 scenarios / ~560 000 real executions per quick run. 24 scenario classes are genuine, unrepaired design-level defects (known_findings.json); any other failing class is a VIOLATION.", "§4 C17")
+  "All scenarios of 2 threads x 1 call over 2 nodes and initial graphs with <=2 edges (thorough: 2x2 calls, 3 nodes, 3 threads), every interleaving of lock acquisitions: ~12 000 scenarios / ~560 000 real executions per quick run. 26 scenario classes are genuine, unrepaired design-level defects (known_findings.json, replayable examples in known_findings_replays/); any other failing class is a VIOLATION. Also a free-running stress round and the liveness property EveryRunEnds.", "§4 C17")
 
 CLAIMED["C14"] = ("TLA+ Macros (invocation ASTs, Denote = the insert/connect fold or a panic naming the unlisted key, MacroOK property layer) enumerated and checked (FoldOK) by TLC; every AST x 4 forms x 4 macros rendered as Rust source, compiled against the working tree and run; observed graph / panic compared with the emitted denotation, disagreements judged by TLC",
   "All invocations with <=2 node entries (thorough <=3) over keys {1,2} with targets in {1,2,3} (3 = unlisted), absent / empty / non-empty edge lists, self-loops, repeats, forward references x 4 forms x 4 macros (~2 700 generated programs per quick run) plus the *_node!/*_connect! helpers.", "§4 C14")
@@ -89,7 +89,7 @@ m = {
  ],
  "checks": checks,
  "not_applicable": na,
- "notes": "See DESIGN.md. known_findings.json lists genuine defects (fixed ones as 'fixed', unrepaired ones as 'findings').",
+ "notes": "See DESIGN.md (as built: §6 findings, §7 the 51 seeded changes and which checks catch them, §8 false alarms and machinery defects met). known_findings.json lists genuine defects (15 repaired ones as 'fixed: property=<id> <commit> ...', 26 unrepaired C17 scenario classes as 'findings'). seeded/benign/ holds behaviour-preserving refactorings that must stay alarm-free. spec/README.md indexes the TLA+ modules.",
 }
 json.dump(m, open(os.path.join(V, "MANIFEST.json"), "w"), indent=1)
 print("claimed", sorted(CLAIMED), "not claimed", [x["property_id"] for x in na])
